@@ -24,4 +24,4 @@ for e in kf["findings"]:
     print("| %s | `%s` | %s |" % (e["property"], e["key"], " ".join(e["what"].split())[:300].replace("|", "/")))
 print()
 for f in kf["fixed"]:
-    print("* " + " ".join(f.split())[:330])
+    print("* " + " ".join(str(f).split())[:330])
